@@ -866,6 +866,7 @@ func c11Run(c *Ctx) {
 		"login_users": users, "refresh_token_rotation": rotates, "operations": c11Ops, "max_operations_after_login": maxDepth,
 		"sign_out_variants_cookie": len(c11Outs(c11Cfg{}, c.Quick())), "sign_out_variants_redis": len(c11Outs(c11Cfg{Redis: true}, c.Quick())),
 	}
+	c11HandMade(c)
 	unit := 0
 	for ci, k := range cfgs {
 		for _, user := range users {
@@ -1103,6 +1104,12 @@ func init() {
 			}
 		},
 		replay: func(c *Ctx, raw json.RawMessage) string {
+			var hm struct{ Kind string }
+			if json.Unmarshal(raw, &hm) == nil && hm.Kind == "hand-made-cookie-set" {
+				c.Shards = 1
+				c11HandMade(c)
+				return "hand-made cookie sets re-run (all of them: the part is 272 requests)"
+			}
 			var cs c11Case
 			if err := json.Unmarshal(raw, &cs); err != nil || cs.Cfg.Name == "" {
 				return "not a C11 case"
